@@ -177,6 +177,29 @@ def membersCtors (members : List Node) : List Ctor :=
     inhabited type is never empty (an empty `type: []` makes Vue reject EVERY value) -/
 def objectLike (cs : List Ctor) : List Ctor := if cs.isEmpty then [.named "Object"] else cs
 
+/-- a type with the aliases and parentheses in front of it removed (`none`: the chain does not end within the fuel) -/
+def unaliasType (fuel : Nat) (reg : St) (ty : Node) : Option Node :=
+  match fuel with
+  | 0 => none
+  | fuel + 1 =>
+    match ty with
+    | .mk .tsParen _ [t] => unaliasType fuel reg t
+    | .mk .tsTypeRef _ (.mk .ident (n :: b :: _) _ :: _) =>
+      match lookupReg reg.typeAliases (n, b) with
+      | some t => unaliasType fuel reg t
+      | none => some ty
+    | t => some t
+
+/-- what an index type `[number]`, `[0]`, `[1]`... selects from an array or tuple: `some none` = every element -/
+def numericIndex (idx : Node) : Option (Option Nat) :=
+  match idx with
+  | .mk .tsKeyword ["number"] _ => some none
+  | .mk .tsLitType _ [.mk .num (v :: _) _] => some (some (natOfNumAtom v))
+  | _ => none
+
+/-- the type of a tuple element (labels dropped) -/
+def tupleElemType (e : Node) : Node := match e with | .mk .tsTupleElem _ [_, t] => t | e => e
+
 /-- the JavaScript constructors of the values of a type -/
 def ctorsOfType (fuel : Nat) (reg : St) (ty : Node) : List Ctor :=
   match fuel with
@@ -215,6 +238,18 @@ def ctorsOfType (fuel : Nat) (reg : St) (ty : Node) : List Ctor :=
         | (none, _) => []
       -- property indexing `T['k']`, `T['a' | 'b']`: the union of the types of the SELECTED declared properties of T —
       -- T read by `propsOfType`, i.e. own and inherited members, through aliases, intersections and utility wrappers
+      -- array / tuple indexing: `T[][number]`, `T[][0]` and `Array<T>[number]` are T; `[A, B][1]` is B; `[A, B][number]` is A | B
+      let arrayLike : Option (List Ctor) :=
+        match unaliasType fuel reg objT, numericIndex idxT with
+        | some (.mk .tsArray _ [elem]), some _ => some (ctorsOfType fuel reg elem)
+        | some (.mk .tsTypeRef _ [.mk .ident ("Array" :: "u" :: _) _, tps]), some _ => ((typeParamsList tps).head?).map (ctorsOfType fuel reg)
+        | some (.mk .tsTuple _ [.mk .list _ elems]), some (some i) => (elems[i]?).map fun e => ctorsOfType fuel reg (tupleElemType e)
+        | some (.mk .tsTuple _ [.mk .list _ elems]), some none =>
+          some (elems.foldl (fun acc e => ctorUnion acc (ctorsOfType fuel reg (tupleElemType e))) [])
+        | _, _ => none
+      match arrayLike with
+      | some cs => cs
+      | none =>
       match propsOfType fuel reg objT, literalStrings fuel reg idxT with
       | .ok props, some keys =>
         let sel := props.filter fun p => keys.contains (specKeyName p.key)
